@@ -94,7 +94,12 @@ class InterpProp(Prop):
         return {'charts': charts}
 
     def run_impl(self, case):
-        charts = [copy.deepcopy(sc) for sc in case.aux['charts']]
+        if case.payload.get('history'):
+            # a statechart with a past is run as the very object that has it (a copy is a new object:
+            # whatever is remembered per object would be forgotten)
+            charts = list(case.aux['charts'])
+        else:
+            charts = [copy.deepcopy(sc) for sc in case.aux['charts']]
         case.aux['run_charts'] = charts
         obs, world = impl.run_case(case.payload, charts)
         return obs
